@@ -41,7 +41,7 @@ struct Run : ContBase {
     FILE *devnull = nullptr;
     std::string tmpfile;
     int nt = 0, removed_in_walk = 0, sort_moved_equal = 0, loads = 0;
-    int nt_refused = 0;
+    int nt_refused = 0, lookups_in_walk = 0, loads_plain_empty = 0;
 
     Run(Src &s_, Ctx &c_, bool scr, bool ret) : ContBase(s_, c_, scr, ret, "listtbl") {}
     ~Run() { if (t) qlisttbl_free(t); if (devnull) fclose(devnull); if (!tmpfile.empty()) unlink(tmpfile.c_str()); }
@@ -211,8 +211,18 @@ struct Run : ContBase {
         qlisttbl_obj_t o; memset(&o, 0, sizeof o);
         size_t step = 0;
         std::vector<size_t> toremove;
+        // a third of the walks without removals: read-only calls on other keys between the steps
+        bool lookups = rmmode == 0 && s.chance(1, 3);
         errno = poison;
         while (qlisttbl_getnext(t, &o, kb ? kb->c() : nullptr, newmem)) {
+            if (lookups && s.chance(1, 2)) {
+                std::string gk = gen_key(); Buf *gb = Buf::cstr(gk);
+                std::vector<size_t> gh = m.lookup(&gk);
+                size_t gsz = 0; void *p = qlisttbl_get(t, gb->c(), &gsz, false);
+                delete gb;
+                if ((p != nullptr) != !gh.empty()) c.fail(FUNC, gh.empty() ? "listtbl:get-absent" : "listtbl:get-missing", "get(%s) between two steps of a walk: wrong presence", hexs(gk).c_str());
+                (void)qlisttbl_size(t); lookups_in_walk++;
+            }
             if (step >= hits.size()) c.fail(FUNC, "listtbl:walk-extra", "walk returned more than the %zu expected entries", hits.size());
             const Ent &e = m.v[hits[step]];
             if (!o.name || e.key != o.name || o.size != e.val.size() || memcmp(o.data, e.val.data(), o.size) != 0)
@@ -246,10 +256,10 @@ struct Run : ContBase {
         if (moved && hasdup) { sort_moved_equal++; nt++; }
     }
     void do_saveload() {
-        static const char seps[] = "=:|,";
-        char sep = seps[s.range(0, 3)];
-        bool unsafe = false;
-        for (auto &e : m.v) { std::string v = e.val.substr(0, e.val.size() - 1); if (v.empty() || v.find_first_of("\r\n") != std::string::npos || isspace((unsigned char)v.front()) || isspace((unsigned char)v.back()) || v.find('\0') != std::string::npos) unsafe = true; for (unsigned char ch : v) if (ch >= 0x80 || ch < 0x20) unsafe = true; }
+        static const char seps[] = "=:|,\t ";                   // incl. the blank separators (tab, space)
+        char sep = seps[s.range(0, 5)];
+        bool unsafe = false, has_empty = false;                   // an empty string needs no encoding ("all data are string ... and has no new line")
+        for (auto &e : m.v) { std::string v = e.val.substr(0, e.val.size() - 1); if (v.empty()) { has_empty = true; continue; } if (v.find_first_of("\r\n") != std::string::npos || isspace((unsigned char)v.front()) || isspace((unsigned char)v.back()) || v.find('\0') != std::string::npos) unsafe = true; for (unsigned char ch : v) if (ch >= 0x80 || ch < 0x20) unsafe = true; }
         bool encode = unsafe || s.boolean();
         bool sameopts = s.boolean();
         if (tmpfile.empty()) { const char *td = getenv("TMPDIR"); tmpfile = std::string(td ? td : "/dev/shm") + "/vf-listtbl-" + std::to_string(getpid()) + ".txt"; }
@@ -266,6 +276,7 @@ struct Run : ContBase {
         full_compare(t2, tm, "table loaded from the saved file");
         if (n != (ssize_t)m.v.size()) c.fail(FUNC, "listtbl:load-count", "load() returned %zd, the file holds %zu entries", n, m.v.size());
         loads++;
+        if (has_empty && !encode) loads_plain_empty++;
     }
 
     void run() {
@@ -313,7 +324,9 @@ struct Run : ContBase {
         leak_verdict("qlisttbl_free");
         c.tag(strf("options_%02d", ob).c_str());
         if (loads) c.tag("case_with_save_load");
+        if (loads_plain_empty) c.tag("case_with_unencoded_save_load_of_an_empty_value");
         if (nt_refused) c.tag("case_with_refused_call_on_present_key");
+        if (lookups_in_walk) c.tag("case_with_lookups_inside_a_walk");
         if (removed_in_walk) c.tag("case_with_removal_in_walk"); if (sort_moved_equal) c.tag("case_with_sort_moving_equal_keys");
         if (c.mode == "C08") c.nontrivial = nt > 0;
         else if (c.mode == "C11") c.nontrivial = removed_in_walk > 0 && nonempty;
